@@ -139,6 +139,10 @@ func AddStandardFilters(fd FilterDictionary) { //nolint: gocyclo
 			return divInt(int64(a), int64(q))
 		case uint32:
 			return divInt(int64(a), int64(q))
+		case uint:
+			return divInt(int64(a), int64(q))
+		case uint64:
+			return divInt(int64(a), int64(q))
 		case float32:
 			return divFloat(a, float64(q))
 		case float64:
